@@ -114,6 +114,7 @@ pub fn one_case(kind: &str, si: &gen::SchemaInfo, input: &J, out: &mut Out) {
             for _ in 0..20 { let h = crate::transform::random_hooks(&mut rng); crate::transform::transform_case(input.as_str().unwrap(), &h, out); }
         }
         "validate" | "purity" => crate::valcases::validate_case(si, input.as_str().unwrap(), &tmpdir(), out),
+        "c03" => crate::valcases::termination_case(si, input.as_str().unwrap(), &tmpdir(), "replay", out),
         "c04" | "c10" | "c09" | "c11" | "c06" | "c07" | "c08" | "c05" => crate::valcases::rules_case(si, input.as_str().unwrap(), &crate::valcases::RULES, &tmpdir(), out),
         "ext" => {
             let mut rng = Rng::new(crate::env_seed());
@@ -242,6 +243,78 @@ pub fn generate(kind: &str, thorough: bool, seed: u64, corpus: &str, out: &mut O
                 let si = gen::SchemaInfo::new(&format!("random{}", i), &gen::random_schema(&mut rng));
                 out.schema(&si);
                 for t in random_docs(&si, &mut rng, 50, 5) { crate::valcases::rules_case(&si, &t, &rules, &tmp, out); }
+            }
+        }
+        "c03" => {
+            let tmp = tmpdir();
+            let sdl = format!("{}\ninterface I {{ a: Int  t: T  i: I }}\ntype T implements I {{ a: Int  b: String  t: T  i: I  u: U  f(x: Int): Int }}\ntype V {{ a: String  t: T }}\nunion U = T | V\ntype Query {{ a: Int  t: T  i: I  u: U }}\ntype Mutation {{ a: Int  t: T }}\ntype Subscription {{ a: Int  t: T }}\n", schemas::PRELUDE);
+            let si = gen::SchemaInfo::new("term", &sdl);
+            out.schema(&si);
+            // (1) fragment graphs whose edges sit under same-key fields: the merge rule follows them
+            fn nest(inner: &str, depth: usize, kind: usize) -> String {
+                let mut t = inner.to_string();
+                for l in 0..depth { t = if (l + kind) % 3 != 2 { format!("t {{ {} }}", t) } else { format!("... on T {{ {} }}", t) }; }
+                t
+            }
+            let graph_doc = |n: usize, adj: u64, variant: usize| -> String {
+                let mut t = format!("{{ t {{ a {} }} }}", (0..n).filter(|k| (variant >> k) & 1 == 1 || *k == 0).map(|k| format!("...F{}", k)).collect::<Vec<_>>().join(" "));
+                for j in 0..n {
+                    let mut body = String::from("a");
+                    for k in 0..n { if adj >> (j * n + k) & 1 == 1 { body.push_str(&format!(" {}", nest(&format!("...F{}", k), (j + 2 * k + variant) % 4, variant + k))); } }
+                    t.push_str(&format!(" fragment F{} on T {{ {} }}", j, body));
+                }
+                t
+            };
+            let mut variant = 0usize;
+            for n in 1..=3usize {
+                for adj in 0..(1u64 << (n * n)) {
+                    if n == 3 && !thorough && adj % 5 != 0 { continue; }
+                    variant += 1;
+                    crate::valcases::termination_case(&si, &graph_doc(n, adj, variant), &tmp, "fragment-graph", out);
+                }
+            }
+            for _ in 0..(150 * scale) {
+                let n = 4 + rng.below(2) as usize;
+                let mut adj = 0u64;
+                for b in 0..(n * n) { if rng.below(6) == 0 { adj |= 1 << b; } }
+                variant += 1;
+                crate::valcases::termination_case(&si, &graph_doc(n, adj, variant), &tmp, "fragment-graph", out);
+            }
+            // the canonical witnesses
+            for t in ["{ t { ...F } } fragment F on T { t { t { ...F } ...F } }", "{ ...F } fragment F on Query { ...F }", "{ t { ...A } } fragment A on T { t { ...B } } fragment B on T { t { ...A } }",
+                      "{ t { ...A ...B } } fragment A on T { a ...B } fragment B on T { a ...A }", "{ t { ...A } } fragment A on T { ... on T { ... on T { ...A } } }",
+                      "{ ...Nope } fragment F on Nope { ...F ...Nope nope { ...F } }", "query ($x: Nope = {a: [$x]}) @nope(a: $x) { nope(a: $x) @skip(if: $y) { ...F } } fragment F on T { a @include }"] {
+                crate::valcases::termination_case(&si, t, &tmp, "witness", out);
+            }
+            // (2) size scaling without fragments: k same-key siblings, depth d (cost ~ (k^2)^d per selection set)
+            for (k, dpt) in [(2usize, 2usize), (2, 4), (2, 6), (2, 8), (3, 3), (3, 5), (4, 3), (4, 4), (6, 2), (8, 2), (16, 1), (40, 1)] {
+                fn tree(k: usize, d: usize) -> String { if d == 0 { "a".into() } else { (0..k).map(|_| format!("t {{ {} }}", tree(k, d - 1))).collect::<Vec<_>>().join(" ") } }
+                let t = format!("{{ {} }}", tree(k, dpt));
+                if crate::valcases::size_depth(&gen::parse_doc(&t).unwrap()).0 <= 400 { crate::valcases::termination_case(&si, &t, &tmp, "same-key-tree", out); }
+            }
+            // many spreads of few fragments under same-key parents (the shape of graphql-js CVE-2023-26144)
+            for m in [2usize, 4, 8, 16, 32] {
+                let sp: String = (0..m).map(|i| format!("...F{} ", i % 3)).collect();
+                let t = format!("{{ t {{ {} }} t {{ {} }} }} fragment F0 on T {{ t {{ {} a }} }} fragment F1 on T {{ t {{ a b }} }} fragment F2 on T {{ a t {{ b }} }}", sp, sp, "...F1 ...F2 ".repeat(m.min(8)));
+                crate::valcases::termination_case(&si, &t, &tmp, "many-spreads", out);
+            }
+            // deep nesting (<= 12) and long chains of fragments
+            for dpt in [4usize, 8, 12] {
+                let mut t = String::from("a"); for _ in 0..dpt { t = format!("t {{ {} ... on T {{ a }} }}", t); }
+                crate::valcases::termination_case(&si, &format!("{{ {} }}", t), &tmp, "deep", out);
+            }
+            for n in [10usize, 40, 120] {
+                let mut t = String::from("{ t { ...F0 } }");
+                for j in 0..n { t.push_str(&format!(" fragment F{} on T {{ t {{ {} }} }}", j, if j + 1 < n { format!("...F{}", j + 1) } else { "a".to_string() })); }
+                crate::valcases::termination_case(&si, &t, &tmp, "chain", out);
+            }
+            // (3) arbitrary (mostly invalid) documents over the pool schemas
+            for si in pool() {
+                out.schema(&si);
+                for t in corpus_docs(corpus, &si.name) { crate::valcases::termination_case(&si, &t, &tmp, "corpus", out); }
+                for t in random_docs(&si, &mut rng, 40 * scale, 7) { crate::valcases::termination_case(&si, &t, &tmp, "random", out); }
+                let noisy = random_docs(&si, &mut rng, 20 * scale, 9);
+                for t in noisy { crate::valcases::termination_case(&si, &t, &tmp, "random-large", out); }
             }
         }
         "c06" => {
